@@ -34,7 +34,9 @@ def is_write_root(f):
 
 
 def is_time_root(f):
-    return bool(TIME_ROOT.search(f.path)) and _api(f)
+    # every function of the type, crate-private ones included: a conversion helper that only the header writers call is still one of
+    # "the conversions" the property speaks about (a timestamp read from an archive must be re-written, not asserted upon)
+    return bool(TIME_ROOT.search(f.path)) and f.kind in ("Fn", "AssocFn")
 
 
 def load_reviewed():
